@@ -112,6 +112,12 @@ func monC10(c *Case, tr *Trace) []Violation {
 				add("in_flight_rpc_harmed", drain2, "rpc %d (%s, new_stream processed at step %d, before the shutdown) did not complete normally: %s", i, c.RPCs[i].Shape, nsRecv, msg)
 			}
 		case refusedByRule:
+			// whatever Stop did afterwards: an RPC that arrives at a draining (or stopped) server never reaches a handler
+			for _, inv := range tr.Invocations {
+				if inv.RPC == i {
+					add("late_rpc_reached_handler", inv.Step, "rpc %d (new_stream processed at step %d, after the shutdown) invoked its handler", i, nsRecv)
+				}
+			}
 			if stopFired >= 0 && nsRecv > stopFired {
 				continue
 			}
@@ -123,11 +129,6 @@ func monC10(c *Case, tr *Trace) []Violation {
 				add("refused_rpc_never_completed", drain2, "rpc %d (new_stream processed at step %d, after the shutdown) has no terminal result", i, nsRecv)
 			} else if term.Code != 14 {
 				add("late_rpc_not_refused", term.End, "rpc %d (new_stream processed at step %d, after the shutdown): terminal result code %d (%s), want Unavailable", i, nsRecv, term.Code, term.Err)
-			}
-			for _, inv := range tr.Invocations {
-				if inv.RPC == i {
-					add("late_rpc_reached_handler", inv.Step, "rpc %d (new_stream processed at step %d, after the shutdown) invoked its handler", i, nsRecv)
-				}
 			}
 		}
 	}
